@@ -32,6 +32,7 @@ type fileSpec struct {
 	gostmt  bool
 	now     bool
 	chans   bool
+	timers  bool     // time.NewTicker/NewTimer/After/AfterFunc/Tick/Sleep become virtual timers (implies chans and now)
 	points  []string // function names that get statement-level points
 	shallow bool     // points only between the top-level statements of those functions
 }
@@ -96,6 +97,9 @@ func main() {
 		// a file that declares channels of its own is rewritten for channels, listed for it or not
 		if usesChans(f) {
 			specs[i].chans = true
+		}
+		if usesTimers(f) {
+			specs[i].timers, specs[i].chans, specs[i].now = true, true, true
 		}
 	}
 	for _, sp := range specs {
@@ -175,6 +179,9 @@ func autoSpecs(repo string, specs []fileSpec) []fileSpec {
 			return true
 		})
 		sp.chans = usesChans(f)
+		if usesTimers(f) {
+			sp.timers, sp.chans, sp.now = true, true, true
+		}
 		if pointFiles[rel] {
 			sp.points = []string{"*"}
 		}
@@ -313,6 +320,10 @@ func rewrite(path string, sp fileSpec) error {
 	if err := format.Node(&buf, fset, f); err != nil {
 		return err
 	}
+	if sp.timers {
+		// the rewriting may have removed the last use of package time
+		buf.WriteString("\nvar _ time.Duration\n")
+	}
 	// reparse to make sure the result is syntactically valid
 	if _, err := parser.ParseFile(token.NewFileSet(), path, buf.Bytes(), 0); err != nil {
 		return fmt.Errorf("rewritten file does not parse: %v", err)
@@ -343,6 +354,17 @@ func (r *rewriter) chanType(e ast.Expr) ast.Expr {
 		// compiled keeps compiling when the restriction is dropped (a real channel flowing into such a type does not)
 		r.needRT = true
 		return &ast.StarExpr{X: &ast.IndexExpr{X: rt("Chan"), Index: r.chanType(ct.Value)}}
+	}
+	if r.sp.timers {
+		if st, ok := e.(*ast.StarExpr); ok {
+			if nt, ok := timeType(st.X); ok {
+				r.needRT = true
+				st.X = nt
+			}
+		} else if nt, ok := timeType(e); ok {
+			r.needRT = true
+			return nt
+		}
 	}
 	return e
 }
@@ -575,6 +597,33 @@ func (r *rewriter) exprsIn(fl *ast.FuncLit) {
 	}
 }
 
+// timerFuncs are the functions of package time that start a timer or wait for one.
+var timerFuncs = map[string]string{"NewTicker": "NewTicker", "NewTimer": "NewTimer", "After": "After", "AfterFunc": "AfterFunc", "Tick": "Tick", "Sleep": "Sleep"}
+
+// usesTimers reports whether the file starts timers or sleeps.
+func usesTimers(f *ast.File) bool {
+	found := false
+	ast.Inspect(f, func(n ast.Node) bool {
+		if s, ok := n.(*ast.SelectorExpr); ok {
+			if x, ok := s.X.(*ast.Ident); ok && x.Name == "time" && timerFuncs[s.Sel.Name] != "" {
+				found = true
+			}
+		}
+		return !found
+	})
+	return found
+}
+
+// timeType maps time.Ticker / time.Timer to the shim types.
+func timeType(e ast.Expr) (ast.Expr, bool) {
+	if s, ok := e.(*ast.SelectorExpr); ok {
+		if x, ok := s.X.(*ast.Ident); ok && x.Name == "time" && (s.Sel.Name == "Ticker" || s.Sel.Name == "Timer") {
+			return rt(s.Sel.Name), true
+		}
+	}
+	return e, false
+}
+
 // usesChans reports whether the file declares a channel type or makes a channel.
 func usesChans(f *ast.File) bool {
 	found := false
@@ -606,7 +655,14 @@ func (r *rewriter) chanExpr(e ast.Expr) bool {
 	case *ast.Ident:
 		return r.chanNames[t.Name]
 	case *ast.SelectorExpr:
-		return r.chanNames[t.Sel.Name]
+		return r.chanNames[t.Sel.Name] || r.sp.timers && t.Sel.Name == "C"
+	case *ast.CallExpr:
+		// range time.Tick(d)
+		if s, ok := t.Fun.(*ast.SelectorExpr); ok && r.sp.timers {
+			if x, ok := s.X.(*ast.Ident); ok && (x.Name == "time" || x.Name == "vsyncrt") && (s.Sel.Name == "Tick" || s.Sel.Name == "After") {
+				return true
+			}
+		}
 	}
 	return false
 }
@@ -675,6 +731,22 @@ func (r *rewriter) expr(e ast.Expr) ast.Expr {
 			if x, ok := s.X.(*ast.Ident); ok && x.Name == "time" && s.Sel.Name == "Now" {
 				r.needRT = true
 				return call(rt("Now"))
+			}
+		}
+		if s, ok := t.Fun.(*ast.SelectorExpr); ok && r.sp.timers {
+			if x, ok := s.X.(*ast.Ident); ok && x.Name == "time" {
+				name := timerFuncs[s.Sel.Name]
+				if s.Sel.Name == "Since" || s.Sel.Name == "Until" {
+					name = s.Sel.Name
+				}
+				if name != "" {
+					r.needRT = true
+					for i := range t.Args {
+						t.Args[i] = r.expr(t.Args[i])
+					}
+					t.Fun = rt(name)
+					return t
+				}
 			}
 		}
 		t.Fun = r.expr(t.Fun)
